@@ -466,3 +466,37 @@ Theorem c17_backlog_is_served : forall cfg st0 ops st,
        (tr_status t = Paused Busy /\
         (In NUnschedule (WindowFrame.out_of st (o_link o)) \/ In (o_link o) (owed_run st0 [] ops)))).
 Proof. exact backlog_is_served. Qed.
+
+(** ... at run level, for a phase without membership changes (partial: see Router/GroupWakeCov.v) *)
+From Rumqtt Require Import Router.GroupWakeCov Router.GroupWakeCovThm.
+From Rumqtt Require Import Router.Model Router.RunDefs.
+
+Theorem c17_steady_phase_covered : forall st1 ops2 st2 name,
+  CInv st1 -> run st1 ops2 = Ok st2 -> Bounded st2 ->
+  (forall d c, glog (r_datalog st2) name = Some d -> stale (d_log d) c = false) ->
+  steady_b st1 ops2 = true ->
+  forall g1 g2,
+    al_get str_eqb name (r_groups st1) = Some g1 -> al_get str_eqb name (r_groups st2) = Some g2 ->
+    forall off, snd (g_cursor g1) <= off < snd (g_cursor g2) -> In off (offs_of name (gfwd st1 ops2)).
+Proof. exact steady_phase_covered. Qed.
+
+Theorem c17_run_complete_partial : forall cfg st0 ops1 st1 ops2 st2,
+  cfg_ok cfg -> 1 <= cf_max_outgoing cfg < B62 -> init cfg = Ok st0 -> ops_wf ops1 -> ops_wf ops2 ->
+  run st0 ops1 = Ok st1 -> run st1 ops2 = Ok st2 -> Bounded st2 ->
+  no_rewind_b st0 (ops1 ++ ops2) = true -> steady_b st1 ops2 = true ->
+  quiescent st2 (owed_run st0 [] (ops1 ++ ops2)) ->
+  forall name g1 g2 d,
+    al_get str_eqb name (r_groups st1) = Some g1 -> al_get str_eqb name (r_groups st2) = Some g2 ->
+    glog (r_datalog st2) name = Some d -> (forall c, stale (d_log d) c = false) ->
+    forall off, snd (g_cursor g1) <= off < end_of (d_log d) -> In off (offs_of name (gfwd st1 ops2)).
+Proof. exact run_complete_steady. Qed.
+
+Theorem c17_run_complete_partial_applies :
+  let st1 := C17WakeExample.gw_st C17CovExample.ops1 in
+  let st2 := C17WakeExample.gw_st (C17CovExample.ops1 ++ C17CovExample.ops2) in
+  run C17WakeExample.gw_st0 C17CovExample.ops1 = Ok st1 /\ run st1 C17CovExample.ops2 = Ok st2 /\
+  steady_b st1 C17CovExample.ops2 = true /\
+  gfwd st1 C17CovExample.ops2 =
+    [(C17WakeExample.key, [97], 0); (C17WakeExample.key, [98], 1); (C17WakeExample.key, [97], 2)] /\
+  forall off, 0 <= off < 3 -> In off (offs_of C17WakeExample.key (gfwd st1 C17CovExample.ops2)).
+Proof. exact C17CovExample.steady_example. Qed.
